@@ -249,3 +249,99 @@ def from_json(j):
     if isinstance(j, list):
         return tuple(from_json(x) for x in j)
     return j
+
+
+# -------------------------------------------------------------------------------------------
+# independent meaning of a *description* (not of the tree the library built from it): what the
+# public constructor named by the tag is documented to denote.  zb / zi map variable indices to z3 terms.
+# -------------------------------------------------------------------------------------------
+def ref_desc(d, zb, zi):
+    import z3
+    t = d[0]
+    R = lambda x: ref_desc(x, zb, zi)   # noqa: E731
+    if t == "bv":
+        return zb[d[1]]
+    if t == "iv":
+        return zi[d[1]]
+    if t == "lit":
+        return z3.BoolVal(d[1]) if isinstance(d[1], bool) else z3.IntVal(d[1])
+    if t == "neg":
+        return -R(d[1])
+    if t == "add":
+        return R(d[1]) + R(d[2])
+    if t == "sub":
+        return R(d[1]) - R(d[2])
+    if t in ("cond", "ccond"):
+        return z3.If(R(d[1]), R(d[2]), R(d[3]))
+    if t == "count_true":
+        xs = [R(x) for x in d[1]]
+        return z3.Sum([z3.If(x, 1, 0) for x in xs]) if xs else z3.IntVal(0)
+    if t == "m_count_true":
+        return z3.If(R(d[1]), 1, 0)
+    if t in INT_CMP:
+        a, b = R(d[1]), R(d[2])
+        return {"eq": a == b, "ne": a != b, "lt": a < b, "le": a <= b, "gt": a > b, "ge": a >= b}[t]
+    if t == "not":
+        return z3.Not(R(d[1]))
+    if t in BOOL_BIN:
+        a, b = R(d[1]), R(d[2])
+        return {"and": z3.And(a, b), "or": z3.Or(a, b), "iff": a == b, "xor": z3.Xor(a, b), "bne": z3.Xor(a, b)}[t]
+    if t in ("then", "cthen"):
+        return z3.Implies(R(d[1]), R(d[2]))
+    if t in ("fold_and", "arr_fold_and"):
+        xs = [R(x) for x in d[1]]
+        return z3.And(xs) if xs else z3.BoolVal(True)
+    if t in ("fold_or", "arr_fold_or"):
+        xs = [R(x) for x in d[1]]
+        return z3.Or(xs) if xs else z3.BoolVal(False)
+    if t in ("m_fold_or", "m_fold_and"):
+        return R(d[1])
+    if t in ("alldiff", "arr_alldiff"):
+        xs = [R(x) for x in d[1]]
+        out = [xs[i] != xs[j] for i in range(len(xs)) for j in range(i)]
+        return z3.And(out) if out else z3.BoolVal(True)
+    raise ValueError("unknown tree tag %r" % (t,))
+
+
+def py_desc(d, vb, vi):
+    """plain-Python value of a description under concrete variable values (solver-free twin of ref_desc)"""
+    t = d[0]
+    P = lambda x: py_desc(x, vb, vi)   # noqa: E731
+    if t == "bv":
+        return vb[d[1]]
+    if t == "iv":
+        return vi[d[1]]
+    if t == "lit":
+        return d[1]
+    if t == "neg":
+        return -P(d[1])
+    if t == "add":
+        return P(d[1]) + P(d[2])
+    if t == "sub":
+        return P(d[1]) - P(d[2])
+    if t in ("cond", "ccond"):
+        return P(d[2]) if P(d[1]) else P(d[3])
+    if t == "count_true":
+        return sum(1 for x in d[1] if P(x))
+    if t == "m_count_true":
+        return 1 if P(d[1]) else 0
+    if t in INT_CMP:
+        a, b = P(d[1]), P(d[2])
+        return {"eq": a == b, "ne": a != b, "lt": a < b, "le": a <= b, "gt": a > b, "ge": a >= b}[t]
+    if t == "not":
+        return not P(d[1])
+    if t in BOOL_BIN:
+        a, b = bool(P(d[1])), bool(P(d[2]))
+        return {"and": a and b, "or": a or b, "iff": a == b, "xor": a != b, "bne": a != b}[t]
+    if t in ("then", "cthen"):
+        return (not P(d[1])) or bool(P(d[2]))
+    if t in ("fold_and", "arr_fold_and"):
+        return all(P(x) for x in d[1])
+    if t in ("fold_or", "arr_fold_or"):
+        return any(P(x) for x in d[1])
+    if t in ("m_fold_or", "m_fold_and"):
+        return bool(P(d[1]))
+    if t in ("alldiff", "arr_alldiff"):
+        xs = [P(x) for x in d[1]]
+        return len(set(xs)) == len(xs)
+    raise ValueError("unknown tree tag %r" % (t,))
